@@ -71,6 +71,21 @@ func isoCorpus(e *ev.Env) {
 		{"half-bound-withinput-then-probe", isoCase{History: []wreq{
 			{Kind: "half-bind-query", Raw: rawReq(reqSpec{Target: "/redir/h0?input=1&card=4111-secret&filter%5Bcolor=red"})}},
 			Probe: probeSpec{Route: 4, Class: ckNone, Variant: "R", Raw: rawReq(reqSpec{Target: "/probeplain?variant=R&tag=shoes"})}}},
+		{"status-then-failed-back-then-bare-redirect", isoCase{History: []wreq{
+			{Kind: "redirect-unfinished-back", Raw: rawReq(reqSpec{Target: "/redirfail/h0?status=303&mode=back"})}},
+			Probe: probeSpec{Route: 4, Class: ckNone, Variant: "R", Raw: rawReq(reqSpec{Target: "/probeplain?variant=R"})}}},
+		{"status-with-then-return-then-route-redirect", isoCase{History: []wreq{
+			{Kind: "redirect-unfinished-return", Raw: rawReq(reqSpec{Target: "/redirfail/h0?status=308&with=1&mode=return&name=q"})}},
+			Probe: probeSpec{Route: 4, Class: ckNone, Variant: "RR", Raw: rawReq(reqSpec{Target: "/probeplain?variant=RR"})}}},
+		{"sendfile-maxage-then-plain", isoCase{History: []wreq{
+			{Kind: "sendfile-1", Raw: rawReq(reqSpec{Target: "/file/1?f=a"})}},
+			Probe: probeSpec{Route: -1, Class: ckNone, Variant: "sendfile", Raw: rawReq(reqSpec{Target: "/file/0?probe=1&f=a"})}}},
+		{"sendfile-plain-then-maxage", isoCase{History: []wreq{
+			{Kind: "sendfile-0", Raw: rawReq(reqSpec{Target: "/file/0?f=a"})}},
+			Probe: probeSpec{Route: -1, Class: ckNone, Variant: "sendfile", Raw: rawReq(reqSpec{Target: "/file/2?probe=1&f=a"})}}},
+		{"sendfile-download-then-plain", isoCase{History: []wreq{
+			{Kind: "sendfile-5", Raw: rawReq(reqSpec{Target: "/file/5?f=b"})}},
+			Probe: probeSpec{Route: -1, Class: ckNone, Variant: "sendfile", Raw: rawReq(reqSpec{Target: "/file/0?probe=1&f=b"})}}},
 		{"server-error-path-then-probe", isoCase{History: []wreq{
 			{Kind: "locals", Cookie: ckValid, Raw: rawReq(reqSpec{Target: "/locals/h0", Cookie: one})},
 			{Kind: "malformed", Kills: true, Raw: []byte("GET\r\n\r\n")}},
